@@ -7,7 +7,7 @@ from sa.emit import Elem, walk_elems
 from sa.flow import show, sig, subterms
 from sa.model import AnalysisError, norm, parent, walk_no_nested
 
-from .common import include_rules, callers_of, commands, is_call, prov, unshipped_modules
+from .common import alts, include_rules, callers_of, commands, is_call, prov, unshipped_modules
 from .xmlcommon import documents
 
 
@@ -145,6 +145,32 @@ def run(report, p):
                 psigs = {psig(o) for o in path_o}
                 ok_date = all(is_call(o, "datetime.fromtimestamp") and o[2] and is_call(o[2][0], "os.path.getmtime") and psig(o[2][0][2][0]) in psigs for o in date_o)
                 r3.check(ok_date, f, call, "recorded folder modification date is not that of the recorded folder", witness="; ".join(show(o)[:160] for o in date_o))
+
+    # ... and inside the session the values arrive at the record unchanged: from the parameters of the append methods to the record constructor's
+    # arguments and from there to the record's fields nothing replaces, clamps or adjusts them
+    n_pass = 0
+    for fq, f in sorted(p.funcs.items()):
+        if f.module.name in unshipped or not f.module.name.endswith((".generator", ".hashlist")):
+            continue
+        for call, tg in p.calls[fq]:
+            if any(t.endswith("find_or_create_media_hash_for_path") for t in tg) and len(call.args) >= 3:
+                for what, a in (("size", call.args[1]), ("modification date", call.args[2])):
+                    n_pass += 1
+                    r3.instance(f, call, f"{f.name}: {what} handed to the record")
+                    try:
+                        os_ = [x for o in pr.origins(a, f) for x in alts(o)]
+                    except AnalysisError:
+                        os_ = []
+                    bad_ = [o for o in os_ if not (o[0] == "param" or (o[0] == "const" and o[1] is None) or (o[0] == "attr" and o[2] in ("file_size", "last_modification_date")))]
+                    r3.check(bool(os_) and not bad_, f, a, f"the {what} recorded for a file is not the value the command measured: on some path `{norm(a)}` is `{show(bad_[0])[:90] if bad_ else '?'}` instead of the parameter it was given (an adjusted, clamped or substituted value - e.g. the hash date in place of a modification date that compares later as a naive local time - describes another instant than the file's)", construct=f"{f.name}: {what} replaced on the way to the record")
+        for n in walk_no_nested(f.node):
+            if isinstance(n, ast.Assign) and isinstance(n.targets[0], ast.Attribute) and n.targets[0].attr in ("file_size", "last_modification_date") and f.name == "find_or_create_media_hash_for_path":
+                n_pass += 1
+                r3.instance(f, n, norm(n)[:70])
+                os_ = [x for o in pr.origins(n.value, f) for x in alts(o)]
+                r3.check(bool(os_) and all(o[0] == "param" for o in os_), f, n, f"`{norm(n)[:60]}` does not store the parameter as it is", construct=f"record field {n.targets[0].attr} not the parameter")
+    if n_pass < 4:
+        raise AnalysisError(f"size / modification date pass-through: only {n_pass} site(s) found in the session and the record constructor")
 
     # ------------------------------------------------------------------ R16.4
     r4 = report.rule("R16.4", "the time stamp in manifest file names is taken from an aware UTC 'now' (or a time converted to UTC) and formatted with a pattern ending in 'Z'", 1)
